@@ -36,6 +36,11 @@ FX = {"flavor": "f64", "kind": "counter", "counter": False, "threads": ["t1", "t
       "scripts": {"t1": [{"k": "incby", "v": "+Inf"}, {"k": "get"}], "t2": [{"k": "incby", "v": 1}, {"k": "get"}, {"k": "incby", "v": 2}], "t3": [{"k": "get"}, {"k": "lflush", "vs": [4]}, {"k": "get"}]}}
 
 
+# ... also when the +Inf arrives through a local counter that is flushed more than once
+FXL = {"flavor": "f64", "kind": "counter", "counter": False, "threads": ["t1", "t2"],
+       "scripts": {"t1": [{"k": "lflush", "vs": [2, "+Inf"]}, {"k": "lflush", "vs": []}, {"k": "get"}, {"k": "lflush", "vs": [4]}], "t2": [{"k": "incby", "v": 1}, {"k": "get"}]}}
+
+
 def run(ctx):
     exe = build_harness()
     stats, samples = new_stats(), []
@@ -52,9 +57,11 @@ def run(ctx):
         run_scenario(ctx, "C01", exe, II3, "II3", stats, samples, *O, model=False, nrandom=100, kinds=["intcounter"])
         run_scenario(ctx, "C01", exe, FS, "FS", stats, samples, *O, model=False, nrandom=10, kinds=["counter"], check=False)
         run_scenario(ctx, "C01", exe, FX, "FX", stats, samples, *O, model=False, nrandom=100, kinds=["counter", "countervec_child"], check=False)
+        run_scenario(ctx, "C01", exe, FXL, "FXL", stats, samples, *O, model=False, nrandom=40, kinds=["counter"], check=False)
     else:
         run_scenario(ctx, "C01", exe, FS, "FS", stats, samples, *O, model=False, nrandom=300, kinds=["counter", "countervec_child"], check=False)
         run_scenario(ctx, "C01", exe, FX, "FX", stats, samples, *O, model=False, nrandom=3000, kinds=["counter", "countervec_child"], check=False)
+        run_scenario(ctx, "C01", exe, FXL, "FXL", stats, samples, *O, model=False, nrandom=1000, kinds=["counter", "countervec_child"], check=False)
         run_scenario(ctx, "C01", exe, FI3, "FI3", stats, samples, *O, model=True, nrandom=5000, kinds=["counter", "countervec_child"])
         run_scenario(ctx, "C01", exe, II3, "II3", stats, samples, *O, model=True, nrandom=2000, kinds=["intcounter", "intcountervec_child"])
         for sc, lb in ((F2s, "F2s"), (FLs, "FLs"), (dict(F3, scale=2.0 ** -60), "F3s"), (dict(F2, scale=2.0 ** 900), "F2h")):
